@@ -1,12 +1,13 @@
 """C20 — design-point equality means equal coordinates and agrees with hashing."""
 import itertools
+from fractions import Fraction
 
 from .. import hooks, oracles
 
 PID = "C20"
 LEVEL = "exploration"
 RULE = ("pairs (a, b) with b = a perturbed in every non-empty subset of coordinates (exhaustive for n<=6) by deltas 1e-9..1e9 "
-        "of both signs, identical copies, hash-colliding vectors (-1.0/-2.0, 0.0/-0.0), across Individual subclasses; the "
+        "of both signs (float coordinates) or 1..1e9 (Python-int coordinates, small and beyond 2**53), identical copies, hash-colliding vectors (-1.0/-2.0, 0.0/-0.0), across Individual subclasses; the "
         "consequences `in`, set(), list.remove, Archive.remove, nondominated_truncate and GeneticAlgorithm.generate are "
         "driven with the same pairs. non-trivial = pair differing in a proper subset of coordinates or colliding hashes; "
         "distinct by (a, b)")
@@ -15,6 +16,13 @@ SHARDS = {"quick": 1, "thorough": 16}
 WATCHDOG = {"quick": 900, "thorough": 3000}
 
 DELTAS = [1e-9, 1e-8, 1e-6, 1e-3, 0.5, 1.0, 7.0, 1e3, 1e9]
+# integer-valued parameters give Python-int coordinates; there "any amount" starts at 1, whatever the magnitude (ids, time stamps
+# and counts above 2**53 are not representable as doubles: a comparison that converts first cannot tell neighbours apart)
+INT_DELTAS = [1, 2, 3, 7, 1000, 10 ** 9]
+
+
+def deltas_for(x):
+    return INT_DELTAS if isinstance(x, int) and not isinstance(x, bool) else DELTAS
 
 
 def classes():
@@ -29,7 +37,10 @@ def expect_equal(a, b):
     """None when the pair is outside the generated domain"""
     eq = True
     for x, y in zip(a, b):
-        d = abs(x - y)
+        if isinstance(x, float) and isinstance(y, float):
+            d = abs(x - y)
+        else:
+            d = abs(Fraction(x) - Fraction(y))        # exact: ints above 2**53 must not be compared through doubles
         if d == 0:
             continue
         if d < 1e-9:
@@ -105,7 +116,12 @@ def cases(ctx):
 
 
 def base_vector(r, n):
-    kind = r.choice(["small", "unit", "big", "neg", "ints", "collide"])
+    kind = r.choice(["small", "unit", "big", "neg", "ints", "collide", "pyints", "bigints"])
+    if kind == "pyints":
+        return [r.randint(-5, 5) for _ in range(n)]
+    if kind == "bigints":
+        return [r.choice([-1, 1]) * (r.choice([2 ** 53, 2 ** 53 + 1, 10 ** 17, 2 ** 62, 10 ** 18 + 7, 2 ** 64, 10 ** 30]) + r.randint(-4, 4))
+                for _ in range(n)]
     if kind == "small":
         return [r.uniform(-1e-6, 1e-6) for _ in range(n)]
     if kind == "unit":
@@ -129,11 +145,12 @@ def run_case(ctx, name, params):
             a = base_vector(r, n)
             for k in range(0, n + 1):
                 for sub in itertools.combinations(range(n), k):
-                    for d in (DELTAS if k else [0.0]):
+                    for di in (range(len(DELTAS)) if k else [None]):
                         for sign in ((1, -1) if k else (1,)):
                             b = list(a)
                             for i in sub:
-                                b[i] = a[i] + sign * d
+                                ds = deltas_for(a[i])
+                                b[i] = a[i] + sign * ds[di % len(ds)]
                             A = r.choice(cls)(a)
                             B = r.choice(cls)(b)
                             judge_pair(ctx, A, B, "subsets")
@@ -152,9 +169,9 @@ def run_case(ctx, name, params):
                 # hash collisions: -1.0 <-> -2.0 swap in one coordinate other than the last
                 b = list(a)
                 i = r.randrange(n)
-                b[i] = -2.0 if a[i] == -1.0 else (-1.0 if a[i] == -2.0 else (-a[i] if a[i] == 0 else a[i] + r.choice(DELTAS)))
+                b[i] = -2.0 if a[i] == -1.0 else (-1.0 if a[i] == -2.0 else (-a[i] if a[i] == 0 else a[i] + r.choice(deltas_for(a[i]))))
             else:
-                b = [x + (r.choice(DELTAS) * r.choice([-1, 1]) if r.random() < 0.4 else 0.0) for x in a]
+                b = [x + (r.choice(deltas_for(x)) * r.choice([-1, 1]) if r.random() < 0.4 else 0) for x in a]
             A = r.choice(cls)(a)
             B = r.choice(cls)(b)
             judge_pair(ctx, A, B, "random")
@@ -184,7 +201,7 @@ def run_case(ctx, name, params):
                 A.vector = base_vector(r, n)
             elif op == "inplace":
                 i = r.randrange(n)
-                A.vector[i] = A.vector[i] + r.choice(DELTAS) * r.choice([-1, 1])
+                A.vector[i] = A.vector[i] + r.choice(deltas_for(A.vector[i])) * r.choice([-1, 1])
             else:
                 other = r.choice(cls)(base_vector(r, n))
                 A.sync(other)
@@ -257,9 +274,9 @@ def run_case(ctx, name, params):
                     b = list(r.choice(pool))
                     if n > 1:
                         i = r.randrange(n - 1)
-                        b[i] = b[i] + r.choice(DELTAS)                   # differs, but not in the last coordinate
+                        b[i] = b[i] + r.choice(deltas_for(b[i]))         # differs, but not in the last coordinate
                     else:
-                        b[0] += r.choice(DELTAS)
+                        b[0] += r.choice(deltas_for(b[0]))
                     pair.append(b)
                 else:
                     pair.append(base_vector(r, n))
